@@ -165,6 +165,53 @@ def inline_rule_wiring():
     return ans, "%d guard paths, %d to new_inlined" % (len(paths), len(inline))
 
 
+def growth_wiring():
+    """AtomTable::build_with, the interning path: the set of interned atoms is only ever replaced by
+    (a) a clone of the current set when the block grows, and (b) a clone of the current set plus the
+    new atom after an insertion. Read off the two loop-body paths of the current tree.
+    -> (ok, note)"""
+    from .mirsmt import core, util
+    mir, _s, _c = util.get()
+    body = None
+    for n in mir.index:
+        if re.match(r"^atom_table::<impl at [^>]*>::build_with$", n):
+            b = mir.body(n)
+            if "&atom_table::AtomTable" in b.header.split("\n")[0]:
+                body = b
+    if body is None:
+        return None, "AtomTable::build_with not found"
+    heads = util.back_edge_targets(body)
+    grow_ok, ins_ok, n_grow, n_ins = True, True, 0, 0
+    for h in heads:
+        for p in core.Executor(body, stop_blocks=tuple(heads), max_depth=400, max_paths=800).run(h):
+            calls = [e for e in p.events if e[0] == "call"]
+            names = [c[1] for c in calls]
+            if any(x.endswith("::grow_new") for x in names):
+                n_grow += 1
+                arcu = [c for c in calls if re.search(r"Arcu.*::new$", c[1])]
+                good = False
+                if arcu:
+                    a0 = arcu[0][2][0]
+                    good = a0[0] == "app" and a0[1].endswith("Clone>::clone")
+                    rep = [c for c in calls if c[1].endswith("::replace")]
+                    good = good and bool(rep) and rep[0][2][1][0] == "agg" and arcu[0][3] in rep[0][2][1][2]
+                grow_ok = grow_ok and good
+            ins = [c for c in calls if re.search(r"IndexSet.*::insert$", c[1])]
+            if ins:
+                n_ins += 1
+                cl = [c for c in calls if c[1].endswith("Clone>::clone")]
+                rep = [c for c in calls if c[1].endswith("::replace")]
+                # insert into the local that holds the clone; that local is what replaces the table
+                tgt = ins[0][2][0]
+                good = bool(cl) and bool(rep) and tgt[0] == "ref" and rep[0][2][1][0] == "s" and \
+                    rep[0][2][1][1].split("@")[0] == tgt[1]
+                ins_ok = ins_ok and good
+    if n_grow == 0 or n_ins == 0:
+        return None, "growth / insertion paths not found (%d, %d)" % (n_grow, n_ins)
+    return grow_ok and ins_ok, "growth keeps a clone of the set: %s; insertion installs clone + new atom: %s" % (
+        grow_ok, ins_ok)
+
+
 def run():
     try:
         order_ok = atom_order_wiring()
@@ -228,8 +275,26 @@ def run():
     res["evaluations"] += 1
     res["distinct_nontrivial"] += 1 if ir == "unsat" else 0
     res["samples"].append({"query": "run-time inline guard == build-script inline rule", "answer": ir, "note": note})
+    try:
+        gw, gnote = growth_wiring()
+    except Exception as e:  # noqa
+        gw, gnote = None, "cannot analyse (%s)" % e
+    log("  AtomTable::build_with keeps the interned set across growth and insertion: %s (%s)" % (gw, gnote))
+    res["evaluations"] += 1
+    res["distinct_nontrivial"] += 1 if gw else 0
+    res["samples"].append({"query": "interned set: growth installs a clone, insertion installs clone + atom",
+                           "answer": {True: "holds", False: "fails", None: "not understood"}[gw], "note": gnote})
     if ans is None:
         res["exit"] = EXIT_INCONCLUSIVE
+    elif gw is not True and table_ok and order_ok and ir == "unsat":
+        from . import prolog
+        rp = prolog.replay_atom_table_growth([{"obligation": "interned set kept", "note": gnote}])
+        if gw is False and rp["reproduced"]:
+            log("VIOLATION property=C21 replay=%s" % rp["path"])
+            res["exit"] = EXIT_VIOLATION
+        else:
+            log("  interned-set wiring not confirmed (%s) and the growth replay answers as specified -> inconclusive" % gw)
+            res["exit"] = EXIT_INCONCLUSIVE
     elif ir != "unsat" and table_ok and order_ok:
         from . import prolog
         rp = prolog.replay_atom_identity([{"obligation": "inline guard", "answer": ir, "note": note}])
